@@ -6,6 +6,8 @@ from common import *  # noqa
 import c12
 import dbgen
 import dbmodel as M
+import dbimpl
+import ioproxy
 import iotie
 import pyspec
 
@@ -48,7 +50,8 @@ def main(tier, seed):
     for ci, (hist, op, auto, kind) in enumerate(cases):
         other = ci % 2 == 1
         iotie.HARDLINK = ci % 3 == 2       # every third case: the database file has a second hard link (a `cp -l` snapshot) when the operation starts
-        rec = iotie.recorded_run(tf, str(ck.work / f"rec{ci}"), hist, op, auto, other_fs=other)
+        skw = {"access_mode": "w+"} if ci % 4 == 3 else None      # every fourth case: the database was created with access mode w+ (reopening the handle must not empty it)
+        rec = iotie.recorded_run(tf, str(ck.work / f"rec{ci}"), hist, op, auto, other_fs=other, storage_kwargs=skw)
         g = dbgen.Gen(seed + ci, {})
         g.ids = 50
         bat = battery(g)
@@ -69,7 +72,7 @@ def main(tier, seed):
             for mode in ("fail_before", "fail_after"):
                 if mode == "fail_after" and call not in ("flush", "fsync", "close"):
                     continue
-                r = iotie.fault_run(tf, str(ck.work / "flt"), hist, op, k, mode, bat, auto, other_fs=other)
+                r = iotie.fault_run(tf, str(ck.work / "flt"), hist, op, k, mode, bat, auto, other_fs=other, storage_kwargs=skw)
                 n_runs += 1
                 by_call[f"{tgt}.{call}"] = by_call.get(f"{tgt}.{call}", 0) + 1
                 if not r.get("injected"):
@@ -141,7 +144,7 @@ def main(tier, seed):
                     if why is None and isinstance(r["reopened"], tuple):
                         why = f"the database cannot be reopened after the fault ({r['reopened'][1]})"
                     if why and len(direct_bad) < 4:
-                        direct_bad.append({"kind": "failing-input", "why": why, **what, "history": hist, "op": op, "auto_index": auto, "database_file_has_a_second_hard_link": iotie.HARDLINK,
+                        direct_bad.append({"kind": "failing-input", "why": why, **what, "history": hist, "op": op, "auto_index": auto, "database_file_has_a_second_hard_link": iotie.HARDLINK, "storage_kwargs": skw or {},
                                            "outcome": r["out"], "contents_before": rec["before"], "contents_after_without_fault": rec["after"],
                                            "file_right_after_fault": r["disk_after_fault"], "file_after_close": r["after_close"],
                                            "calls_of_op": [f"{t}.{c}" for _, t, c, _ in rec["events"]]})
@@ -154,11 +157,42 @@ def main(tier, seed):
                 if why is None and isinstance(r["reopened"], tuple):
                     why = f"the database cannot be reopened after the fault ({r['reopened'][1]})"
                 if why and len(direct_bad) < 4:
-                    direct_bad.append({"kind": "failing-input", "why": why, **what, "history": hist, "op": op, "auto_index": auto, "database_file_has_a_second_hard_link": iotie.HARDLINK,
+                    direct_bad.append({"kind": "failing-input", "why": why, **what, "history": hist, "op": op, "auto_index": auto, "database_file_has_a_second_hard_link": iotie.HARDLINK, "storage_kwargs": skw or {},
                                        "outcome": r["out"], "contents_before": rec["before"], "contents_after_without_fault": rec["after"],
                                        "file_right_after_fault": r["disk_after_fault"], "file_after_close": r["after_close"],
                                        "calls_of_op": [f"{t}.{c}" for _, t, c, _ in rec["events"]]})
                 coq_cases.append((auto, hist, op, [x if x is not None else c12.BAD for x in obs]))
+    # "the call's error reaches the caller" - also when the database is used as `with TinyFlux(path) as db:` and the failing call is made
+    # inside the block: the OSError leaves the block (fsync / write / flush failing once, at the first, a middle and the last insert)
+    import tempfile as _tempfile
+    import tinyflux.storages as _st
+    with_runs = 0
+    for call_name in ("fsync", "flush", "write"):
+        for fail_at in (0, 1, 2):
+            d = _tempfile.mkdtemp(dir=str(ck.work))
+            path = os.path.join(d, "db.csv")
+            h = ioproxy.IOHarness()
+            h.primary = path
+            undo = ioproxy.install(_st, h)
+            reached, inside = None, []
+            try:
+                try:
+                    with tf.TinyFlux(path) as db:
+                        # per inserted row the storage makes six calls: seek, write, flush, fileno, fsync, truncate
+                        h.arm("fail_before", fail_at * 6 + {"write": 1, "flush": 2, "fsync": 4}[call_name])
+                        for i in range(3):
+                            db.insert(tf.Point(time=dbimpl.dt_of(dbgen.T0 + i * 1000000), tags={"k": str(i)}, fields={"a": float(i)}))
+                            inside.append(i)
+                    reached = False
+                except OSError:
+                    reached = True
+            finally:
+                h.disarm()
+                undo()
+            with_runs += 1
+            if h.injected and reached is False and len(direct_bad) < 4:
+                direct_bad.append({"kind": "failing-input", "why": f"an OSError injected into {call_name} during insert number {fail_at} inside a `with TinyFlux(path) as db:` block "
+                                   "did not reach the caller: the block ended normally", "inserts_that_returned_inside_the_block": inside})
     # tie: every file state seen right after a fault is one the model allows for that operation's plan
     f = ck.work / "cases_c13.v"
     head = iotie.COQ_HEAD + (
